@@ -96,10 +96,10 @@ def gen_material(rng, n, dlen, tier="quick", force_kind=None):
     and to itself up to (and beyond) 64 KB back"""
     if force_kind:
         kind = force_kind
-    elif n + dlen <= 40000 or rng.random() < (0.2 if tier == "thorough" else 0.03):
+    elif n + dlen <= 40000 or (n + dlen <= 150000 and rng.random() < 0.05):
         kind = rng.choice(LIGHT_KINDS + HEAVY_KINDS)
     else:
-        kind = rng.choice(LIGHT_KINDS)
+        kind = rng.choice(LIGHT_KINDS)      # the list-based spec decoder is O(offset) per match: keep big inputs to few/near matches
     if kind == "period":
         pat = rng.randbytes(rng.choice([3, 17, 255, 4096, 30000, 65535, 65536, 65537, 70000]))
         big = (pat * ((n + dlen) // len(pat) + 1))[:n + dlen]
